@@ -2,6 +2,7 @@ import EaselModel.Msafile.AfaLemmas
 import EaselModel.Msafile.A2mLemmas
 import EaselModel.Msafile.ClustalLemmas
 import EaselModel.Msafile.PsiblastLemmas
+import EaselModel.Msafile.PhylipLemmas
 import EaselModel.Msafile.AbcTables
 /-! # C01 — alignment input is total: property theorems (statements + glue; lemmas live in `Msafile/*Lemmas.lean`)
 
@@ -11,7 +12,7 @@ format-or-alphabet undetermined); never a crash, out-of-object access, UB, leak 
 returned with success is well formed.
 
 PARTIAL at this revision: the theorems below cover the formats whose reader is modelled (`MODELLED` in props/c01.py:
-aligned FASTA, A2M, Clustal, Clustal-like, PSI-BLAST), declared format, text mode and digital mode with a supplied alphabet, for EVERY byte string (no size
+aligned FASTA, A2M, Clustal, Clustal-like, PSI-BLAST, PHYLIP interleaved and sequential), declared format, text mode and digital mode with a supplied alphabet, for EVERY byte string (no size
 bound).  The other formats, autodetection and alphabet guessing are covered by the harness monitors only (support, not
 proof); leaks are outside the model. `Good r` is: `ok m ⇒ m.wellFormed`, `eof`, `eformat msg ⇒ msg ≠ ""`; `fault`
 (out-of-bounds access of the bounds-checked model) and `exc` (ESL_EXCEPTION) are NOT good. -/
@@ -272,6 +273,104 @@ example : (psiblastRead (psiblastCfg none) (splitLines exPsiCase)).1 matches .ef
 example : (psiblastRead (psiblastCfg none) (splitLines [10, 32, 10])).1 matches .eof := by decide +kernel
 example : clustalCfg (some abcAmino) ∈ clustalConfigs := by simp [clustalConfigs]
 example : psiblastCfg (some abcRna) ∈ psiblastConfigs := by simp [psiblastConfigs]
+
+
+/-! ## ===================== PHYLIP (interleaved `phylip`, sequential `phylips`), declared format =====================
+
+`esl_msafile_phylip_SetInmap`, `esl_msafile_phylip_Read`, `phylip_interleaved_Read`, `phylip_sequential_Read`,
+`phylip_rectify_input_name`, `esl_mem_strtoi32`, with the default name width (`fmtd.namewidth = 0` ⇒ 10).
+`phylipRead sequential cfg lines` is one `esl_msafile_Read`; its second component is what is left for the next read
+(a PHYLIP file may hold several alignments: the header line of the next one is pushed back by `esl_msafile_PutLine`).
+Not covered: `esl_msafile_phylip_CheckFileFormat` (autodetection), non-default name widths, allocation failure. -/
+
+theorem phylip_cfg_text_valid : (phylipCfg none).valid := ⟨by decide +kernel, by decide +kernel⟩
+theorem phylip_cfg_amino_valid : (phylipCfg (some abcAmino)).valid := ⟨by decide +kernel, by decide +kernel⟩
+theorem phylip_cfg_dna_valid : (phylipCfg (some abcDna)).valid := ⟨by decide +kernel, by decide +kernel⟩
+theorem phylip_cfg_rna_valid : (phylipCfg (some abcRna)).valid := ⟨by decide +kernel, by decide +kernel⟩
+
+/-- the four configurations of the PHYLIP readers -/
+def phylipConfigs : List Cfg := [phylipCfg none, phylipCfg (some abcAmino), phylipCfg (some abcDna), phylipCfg (some abcRna)]
+
+theorem phylipConfigs_valid : ∀ cfg ∈ phylipConfigs, cfg.valid := by
+  intro cfg h
+  simp only [phylipConfigs, List.mem_cons, List.mem_nil_iff, or_false] at h
+  rcases h with h | h | h | h <;> subst h
+  · exact phylip_cfg_text_valid
+  · exact phylip_cfg_amino_valid
+  · exact phylip_cfg_dna_valid
+  · exact phylip_cfg_rna_valid
+
+/-- **PHYLIP, both variants, every byte string, text and digital**: one `esl_msafile_Read` returns ok with a well-formed
+    alignment, eof, or eformat with a non-empty message.  Stated for every list of lines, hence also for every
+    continuation point inside a file holding several alignments. -/
+theorem phylip_total (sequential : Bool) (cfg : Cfg) (hc : cfg ∈ phylipConfigs) (lines : List Bytes) :
+    Good (phylipRead sequential cfg lines).1 :=
+  phylipRead_good sequential cfg (phylipConfigs_valid cfg hc) lines
+
+theorem phylip_total_bytes (sequential : Bool) (cfg : Cfg) (hc : cfg ∈ phylipConfigs) (src : Bytes) :
+    Good (phylipRead sequential cfg (splitLines src)).1 :=
+  phylip_total sequential cfg hc (splitLines src)
+
+/-- … the accesses to `msa->sqname[idx]`, `msa->aseq[idx]`, `msa->ax[idx]` (arrays of the header's `nseq` entries) stay in
+    bounds, the `*cat` helpers are always called with the true length of the stored row, no NULL name or row is
+    returned, and no `ESL_EXCEPTION` is raised -/
+theorem phylip_no_fault (sequential : Bool) (cfg : Cfg) (hc : cfg ∈ phylipConfigs) (lines : List Bytes) :
+    (phylipRead sequential cfg lines).1 ≠ .fault ∧ (phylipRead sequential cfg lines).1 ≠ .exc := by
+  have h := phylip_total sequential cfg hc lines
+  constructor <;> intro hr <;> rw [hr] at h <;> exact h
+
+theorem phylip_eformat_has_message (sequential : Bool) (cfg : Cfg) (hc : cfg ∈ phylipConfigs) (lines : List Bytes) (msg : String)
+    (h : (phylipRead sequential cfg lines).1 = .eformat msg) : msg ≠ "" := by
+  have hg := phylip_total sequential cfg hc lines
+  rw [h] at hg; exact hg
+
+/-- … an alignment returned with eslOK is well formed: ≥ 1 sequence, every row of length `alen` (text rows NUL-free,
+    digital rows sentinel-delimited with codes `< Kp`), default weights; and what is left for the next read is a suffix
+    of the lines offered (nothing invented; the pushed-back line is the last line read) -/
+theorem phylip_ok_wellformed (sequential : Bool) (cfg : Cfg) (hc : cfg ∈ phylipConfigs) (lines : List Bytes) (m : Msa)
+    (h : (phylipRead sequential cfg lines).1 = .ok m) :
+    m.wellFormed = true ∧ (phylipRead sequential cfg lines).2 <:+ lines := by
+  have hg := phylip_total sequential cfg hc lines
+  rw [h] at hg
+  exact ⟨hg, phylipRead_rest_suffix sequential cfg lines⟩
+
+/-- reading a whole file alignment by alignment (what the harness and `readAll` do): every read of the sequence is good -/
+theorem phylip_read_all_total (sequential : Bool) (cfg : Cfg) (hc : cfg ∈ phylipConfigs) (src : Bytes) :
+    Good (phylipRead sequential cfg (splitLines src)).1 ∧
+    Good (phylipRead sequential cfg (phylipRead sequential cfg (splitLines src)).2).1 :=
+  ⟨phylip_total sequential cfg hc _, phylip_total sequential cfg hc _⟩
+
+/-- `esl_abc_dsqcat` with the PHYLIP input map appends only valid alphabet codes, whatever the input bytes -/
+theorem phylip_dsqcat_codes_valid (a : Abc) (ha : a = abcAmino ∨ a = abcDna ∨ a = abcRna) (src : Bytes) :
+    ((mapLoop (phylipInmap (some a)) src .ok []).2.reverse).all (fun x => decide (x.toNat < a.kp)) = true := by
+  rcases ha with h | h | h <;> subst h <;> exact mapLoop_all' _ _ (by decide +kernel) src
+
+/-! ### non-vacuity and witnesses -/
+
+/-- " 2 4\nseq1      AC\nseq2      A-\n\nGT\n-T\n" : two interleaved blocks -/
+def exPhyI : Bytes := str " 2 4\nseq1      AC\nseq2      A-\n\nGT\n-T\n"
+/-- "2 4\nseq1      AC\nGT\nseq2      A-\n-T\n" : sequential, records spanning lines -/
+def exPhyS : Bytes := str "2 4\nseq1      AC\nGT\nseq2      A-\n-T\n"
+/-- two alignments in one file -/
+def exPhy2 : Bytes := str "1 2\na b       AC\n 1 3\nc         ACG\n"
+
+example : (phylipRead false (phylipCfg none) (splitLines exPhyI)).1 matches .ok _ := by decide +kernel
+example : (phylipRead false (phylipCfg (some abcDna)) (splitLines exPhyI)).1 matches .ok _ := by decide +kernel
+example : (phylipRead true (phylipCfg (some abcRna)) (splitLines exPhyS)).1 matches .ok _ := by decide +kernel
+example : (phylipRead true (phylipCfg none) (splitLines exPhyI)).1 matches .eformat _ := by decide +kernel        -- wrong variant
+example : (phylipRead false (phylipCfg none) (splitLines [])).1 matches .eof := by decide +kernel
+example : (phylipRead false (phylipCfg none) (splitLines (str "0 4\nx         ACGT\n"))).1 matches .eformat _ := by decide +kernel   -- nseq < 1 (landed fix)
+example : (phylipRead false (phylipCfg none) (splitLines (str "+1 4\nx         ACGT\n"))).1 matches .eformat _ := by decide +kernel  -- '+' is not a sign
+example : (phylipRead false (phylipCfg none) (splitLines (str "0x1 04\nx         ACGT\n"))).1 matches .ok _ := by decide +kernel     -- hex / octal header
+example : (phylipRead false (phylipCfg none) (splitLines (str "2147483648 4\n"))).1 matches .eformat _ := by decide +kernel        -- eslERANGE
+/-- the second alignment is left for the next read: the pushed-back header line and what follows it -/
+example : (phylipRead false (phylipCfg none) (splitLines exPhy2)).2 = [str " 1 3", str "c         ACG"] := by decide +kernel
+example : (phylipRead false (phylipCfg none) (phylipRead false (phylipCfg none) (splitLines exPhy2)).2).1 matches .ok _ := by decide +kernel
+/-- digital mode ignores the digits '0'..'8' but NOT '9' (`for (sym = '0'; sym < '9'; sym++)`); text mode ignores all ten -/
+example : (phylipRead false (phylipCfg (some abcDna)) (splitLines (str "1 4\nx         AC8GT\n"))).1 matches .ok _ := by decide +kernel
+example : (phylipRead false (phylipCfg (some abcDna)) (splitLines (str "1 4\nx         AC9GT\n"))).1 matches .eformat _ := by decide +kernel
+example : (phylipRead false (phylipCfg none) (splitLines (str "1 4\nx         AC9GT\n"))).1 matches .ok _ := by decide +kernel
+example : phylipCfg (some abcAmino) ∈ phylipConfigs := by simp [phylipConfigs]
 
 
 end EaselModel.Props.C01
